@@ -58,6 +58,7 @@ Proof.
     + destruct (c_foreign A _ Hf2) as [|[Hr Hn]]; auto. right. split; auto. lia.
     + right. split; auto. now rewrite <- Hlf.
   - intros Hc. apply (c_cpq B). apply (c_cpq A). exact Hc.
+  - intros g Hd. apply (c_done B). apply (c_done A). exact Hd.
 Qed.
 
 Lemma chg_trans' W s1 s2 s3 : chg W s1 s2 -> chg W s2 s3 -> chg W s1 s3.
@@ -121,6 +122,7 @@ Proof.
       * left. right. right. right. right. now exists v.
       * right. rewrite Ef. eapply Hok; eauto.
   - intros Hc c. unfold getc. rewrite Ec. apply Hc.
+  - intros g. unfold fdone. now rewrite Hf.
 Qed.
 
 (* only one future record changes *)
@@ -128,9 +130,10 @@ Lemma chg_setf W s f x :
   fowner x = fowner (getf s f) ->
   (woken (setf s f x) f = true -> woken s f = true \/ W f) ->
   (forall t, In (CbWakeup t) (fcbs x) -> In (CbWakeup t) (fcbs (getf s f)) \/ t < length (tasks s)) ->
+  (fdone s f = true -> fdone (setf s f x) f = true) ->
   chg W s (setf s f x).
 Proof.
-  intros Eo Ew Ecb.
+  intros Eo Ew Ecb Ed.
   assert (Hl : forall l, getl (setf s f x) l = getl s l) by reflexivity.
   assert (Ht : forall t, gett (setf s f x) t = gett s t) by reflexivity.
   assert (Elen : length (futs (setf s f x)) = length (futs s)).
@@ -153,6 +156,8 @@ Proof.
   - intros c Hc. left. exact Hc.
   - intros g Hg. left. exact Hg.
   - intros Hc c. apply Hc.
+  - intros g Hd. destruct (Nat.eq_dec f g) as [<-|Hne]; auto.
+    unfold fdone in *. now rewrite getf_setf_other.
 Qed.
 
 (* only one task record changes, in fields the invariant does not read (or its
@@ -187,6 +192,7 @@ Proof.
   - intros c Hc. left. exact Hc.
   - intros g Hg. left. exact Hg.
   - intros Hc c. apply Hc.
+  - intros g. unfold fdone. now rewrite Hf.
 Qed.
 
 Lemma chg_new_future W s o : chg W s (fst (new_future s o)).
@@ -216,6 +222,9 @@ Proof.
   - intros c Hc. left. exact Hc.
   - intros g Hg. left. exact Hg.
   - intros Hc c. apply Hc.
+  - intros g Hd. destruct (Nat.lt_ge_cases g (length (futs s))) as [Hg|Hg].
+    + unfold fdone in *. now rewrite Hf.
+    + unfold fdone in Hd. rewrite getf_oob in Hd by auto. discriminate.
 Qed.
 
 Lemma new_future_id s o : snd (new_future s o) = length (futs s).
@@ -265,6 +274,7 @@ Proof.
   - intros g t. rewrite Hf. auto.
   - intros c. rewrite Eh. auto.
   - intros f H. rewrite Ef. auto.
+  - intros g. unfold fdone. now rewrite Hf.
 Qed.
 
 Definition freshish (s : st) (f : nat) : Prop := f < length (futs s) /\ ~ lockfut s f.
@@ -375,6 +385,12 @@ Proof.
   destruct (Nat.ltb f (length (futs s))); [now rewrite E|reflexivity].
 Qed.
 
+Lemma fdone_setf_same s f y : fstate_ y = fstate_ (getf s f) -> fdone (setf s f y) f = fdone s f.
+Proof.
+  intros E. unfold fdone. rewrite getf_setf, Nat.eqb_refl. simpl.
+  destruct (Nat.ltb f (length (futs s))); [now rewrite E|reflexivity].
+Qed.
+
 Lemma chg_fold_soon W f cbs : forall s,
   (forall t, In (CbWakeup t) cbs -> t < length (tasks s)) ->
   chg W s (fold_left (fun s c => call_soon_ s (cb_callback f c)) cbs s).
@@ -396,12 +412,14 @@ Proof.
   assert (Hg1 : fcbs (getf s1 f) = fcbs (getf s f)).
   { unfold s1. rewrite getf_setf. destruct (Nat.eqb f f && Nat.ltb f (length (futs s)))%bool; reflexivity. }
   eapply chg_trans'; [|eapply chg_trans'].
-  - apply chg_setf with (x := getf s f <| fstate_ := x |>); [reflexivity| |cbn; auto].
+  - apply chg_setf with (x := getf s f <| fstate_ := x |>);
+      [reflexivity| |cbn; auto|intros Hd; unfold fdone in Hd; rewrite E in Hd; discriminate].
     intros Hw. right. unfold woken in Hw. rewrite getf_setf, Nat.eqb_refl in Hw.
     destruct (Nat.ltb f (length (futs s))); cbn in Hw.
     + destruct x; try discriminate; exact HW.
     + rewrite E in Hw. discriminate.
-  - apply chg_setf with (x := getf s1 f <| fcbs := [] |>); [reflexivity| |intros t []].
+  - apply chg_setf with (x := getf s1 f <| fcbs := [] |>);
+      [reflexivity| |intros t []|intros Hd; now rewrite fdone_setf_same by reflexivity].
     intros Hw. left. rewrite woken_setf_same in Hw by reflexivity. exact Hw.
   - apply chg_fold_soon. intros t Ht. rewrite Hg1 in Ht. apply Hcb. exact Ht.
 Qed.
@@ -414,14 +432,15 @@ Lemma chg_add_done_callback W s f t :
 Proof.
   intros Ht. unfold add_done_callback. destruct (fdone s f).
   - apply chg_call_soon. simpl. now apply cb_ok_wakeup.
-  - apply chg_setf; [reflexivity| |].
+  - apply chg_setf; [reflexivity| | |intros Hd; now rewrite fdone_setf_same by reflexivity].
     + intros Hw. left. rewrite woken_setf_same in Hw by reflexivity. exact Hw.
     + cbn. intros t0 H0. apply in_app_or in H0 as [|[H0|[]]]; auto. inversion H0; subst. auto.
 Qed.
 
 Lemma chg_remove_done_callback W s f c : chg W s (remove_done_callback s f c).
 Proof.
-  unfold remove_done_callback. apply chg_setf; [reflexivity| |].
+  unfold remove_done_callback.
+  apply chg_setf; [reflexivity| | |intros Hd; now rewrite fdone_setf_same by reflexivity].
   - intros Hw. left. rewrite woken_setf_same in Hw by reflexivity. exact Hw.
   - cbn. intros t0 H0. apply filter_In in H0 as [H0 _]. auto.
 Qed.
@@ -433,6 +452,7 @@ Proof.
   intros E1 E2 E3. apply chg_setf; auto.
   - intros Hw. left. rewrite woken_setf_same in Hw by exact E1. exact Hw.
   - intros t. rewrite E3. auto.
+  - intros Hd. now rewrite fdone_setf_same by exact E1.
 Qed.
 
 Lemma chg_fut_result W s f : chg W s (fst (fut_result s f)).
